@@ -169,6 +169,33 @@ fn main() {
         defs.push(SubjectDef { family: "sub".into(), def: case.def, skip_log: false, has_value: vec![], error_cb: false, twin });
         got += 1;
     }
+    // literal family (C10 on compiled lexers): fixed case-pair definitions and generated literal definitions
+    if from_replay.is_none() {
+        for sd in model::set::lit_defs() {
+            match prepare(&sd.def) {
+                Ok(p) => {
+                    total_states += p.graph.states.len();
+                    defs.push(sd);
+                }
+                Err(e) => eprintln!("subjgen: fixed literal definition not accepted by this tree, left out: {}", why(&e)),
+            }
+        }
+        let n_lit = if tier == "thorough" { 24 } else { 10 };
+        let lstrat = model::gen::literal_defs();
+        got = 0;
+        tries = 0;
+        while got < n_lit && tries < n_lit * 40 {
+            tries += 1;
+            let def = lstrat.new_tree(&mut runner).unwrap().current();
+            let Ok(p) = prepare(&def) else { continue };
+            if p.graph.states.len() > 200 {
+                continue;
+            }
+            total_states += p.graph.states.len();
+            defs.push(SubjectDef { family: "lit".into(), def, skip_log: false, has_value: vec![], error_cb: false, twin: false });
+            got += 1;
+        }
+    }
     if from_replay.is_none() {
         defs.extend(stress_defs());
     }
